@@ -139,7 +139,7 @@ def run_case(case):
                 if rel.endswith('.yaml') or rel.endswith('.yml'):
                     csts[rel] = {'extern': dump_extern(str(Path(root) / rel))}
                 else:
-                    csts[rel] = dump_cst(text)
+                    csts[rel] = dump_cst((Path(root) / rel).read_text())   # as FileReaderWriter.read_idl reads it
         from pydjinni import API
         opts = case.get('options') or DEFAULT_OPTS
         out = {}
@@ -149,7 +149,7 @@ def run_case(case):
             out['outcome'] = 'ok'
             src = g
         except BaseException as e:  # noqa
-            if isinstance(e, (KeyboardInterrupt, SystemExit)):
+            if isinstance(e, (KeyboardInterrupt, SystemExit, CaseTimeout)):
                 raise
             info = exc_info(e)
             out['outcome'] = info['kind']
@@ -175,12 +175,28 @@ def run_case(case):
         shutil.rmtree(root, ignore_errors=True)
 
 
+class CaseTimeout(BaseException):
+    pass
+
+
+def _alarm(signum, frame):
+    raise CaseTimeout()
+
+
 if __name__ == '__main__':
+    import signal
     payload = read_payload()
     res = []
+    signal.signal(signal.SIGALRM, _alarm)
     for c in payload['cases']:
         try:
-            res.append(run_case(c))
+            signal.alarm(int(c.get('timeout_s', 25)))
+            try:
+                res.append(run_case(c))
+            finally:
+                signal.alarm(0)
+        except CaseTimeout:
+            res.append({'outcome': 'timeout'})
         except BaseException as e:  # harness-level failure
             if isinstance(e, (KeyboardInterrupt, SystemExit)):
                 raise
